@@ -110,7 +110,7 @@ func showModel(p *Program, an *Analysis, s *Set) (imports []string, groups map[s
 	}
 	walk(s.ID)
 	for id := range seen {
-		if id != s.ID {
+		if id != s.ID && !p.Sets[id].Inline {
 			imports = append(imports, fmt.Sprintf("%q.%s", p.ImportPath(p.Sets[id].Pkg), p.Sets[id].Name))
 		}
 	}
@@ -368,6 +368,9 @@ func CheckC19(e *Env) int {
 			}
 			bad := ""
 			for _, s := range p.Sets {
+				if s.Inline {
+					continue
+				}
 				key := fmt.Sprintf("%q.%s", p.ImportPath(s.Pkg), s.Name)
 				got := sr.out.Sets[key]
 				if got == nil {
